@@ -439,7 +439,7 @@ def plain_pickles(ctx, rng, n):
     while len(cases) < n:
         c = L.gen_case(rng, 3)
         if c["type"]["k"] in ("string", "scalar"): continue
-        c = {"type": c["type"], "value": c["value"], "form": "py", "prep": c["prep"], "with_sibling": rng.random() < 0.3}
+        c = {"type": c["type"], "value": c["value"], "form": "py", "prep": c["prep"], "with_sibling": rng.random() < 0.3, "refs": bool(c.get("refs"))}
         if "cap" in json.dumps(c["value"]): continue
         cases.append(c)
     sh = (len(cases) + 7) // 8
@@ -473,17 +473,20 @@ def plain_pickles(ctx, rng, n):
             note("C20/plain/objects-that-shared-a-buffer-no-longer-share", "two objects of one buffer pickled together", i); continue
         idx.append(i)
     SH = 60
-    files = [("cases_C20p_%d" % (j // SH), L.cases_file([(cases[i], results[i]) for i in idx[j:j + SH]])) for j in range(0, len(idx), SH)]
+    pidx = [i for i in idx if not cases[i].get("refs")]; ridx = [i for i in idx if cases[i].get("refs")]
+    files = [("cases_C20p_%d" % (j // SH), L.cases_file([(cases[i], results[i]) for i in pidx[j:j + SH]])) for j in range(0, len(pidx), SH)]
+    files += [("cases_C20r_%d" % (j // 25), L.ref_cases_file([(cases[i], results[i]) for i in ridx[j:j + 25]])) for j in range(0, len(ridx), 25)]
     res = coq_eval_many(ctx, files)
     out = []
-    for j in range(0, len(idx), SH):
-        rc, o = res["cases_C20p_%d" % (j // SH)]
-        pairs = parse_pairs(o) if rc == 0 else None
-        if pairs is None:
-            out.append(("C20/plain/cases-do-not-evaluate", "cases file does not evaluate", dict(kind="broken-tie", log=o[-1200:]))); continue
-        for a, code in pairs:
-            i = idx[j + a]
-            note("C20/plain/restored-bytes-not-the-documented-image/code%d/%s" % (code, L.sig_type(cases[i]["type"])), "layout_ok code %d on the restored buffer" % code, i)
+    for fam, ids, sh in (("cases_C20p_%d", pidx, SH), ("cases_C20r_%d", ridx, 25)):
+        for j in range(0, len(ids), sh):
+            rc, o = res[fam % (j // sh)]
+            pairs = parse_pairs(o) if rc == 0 else None
+            if pairs is None:
+                out.append(("C20/plain/cases-do-not-evaluate", "cases file does not evaluate", dict(kind="broken-tie", log=o[-1200:]))); continue
+            for a, code in pairs:
+                i = ids[j + a]
+                note("C20/plain/restored-bytes-not-the-documented-image/code%d/%s" % (code, L.sig_type(cases[i]["type"])), "layout judgement code %d on the restored buffer" % code, i)
     for sig, (i, what) in sorted(bysig.items()):
         out.append((sig, what, dict(kind="concrete", tie="K-PICKLE-plain", plain_case=cases[i], observed={k: v for k, v in results[i].items() if k != "after"},
                                     how_to_replay="./check C20 --replay <this file>")))
